@@ -11,6 +11,7 @@ CONSTANTS
   FlagsInModel = FALSE
   Responder = "adversary"
   ClientDesign = "fixed"
+  SentSpace = "configured"
 INIT Init
 NEXT Next
-INVARIANTS TypeOK ClientSafe ClientComplete OnlyAcceptSelects
+INVARIANTS TypeOK ClientSafe ClientComplete OnlyAcceptSelects SentOfConfigured UnsentNeverSettles SentDecides SentOnlyJudgesAccepts
